@@ -2,6 +2,7 @@ package cfdrv
 
 import (
 	"fmt"
+	"strings"
 	"os"
 	"sort"
 
@@ -304,7 +305,7 @@ func (w *world) tipRound(np int, disc bool, forced []string) (ret string) {
 	w.serve(ps, disc)
 	ret = guard(func() string { return errKind(w.v.GetUncheckpointedCFHeaders()) })
 	w.onQuery = nil
-	w.t.Hit("tipround." + ret)
+	w.t.Hit("tipround." + strings.ReplaceAll(ret, " ", "-"))
 	w.t.Op("tipround", ret+" | "+w.dump())
 	return ret
 }
@@ -342,7 +343,7 @@ func (w *world) directWrite() {
 		}
 		return fmt.Sprintf("ok %d %d", w.hid(*h), ht)
 	})
-	w.t.Hit("wr." + ret[:2])
+	w.t.Hit("wr." + strings.ReplaceAll(ret[:mini(len(ret), 8)], " ", "-"))
 	w.t.Op(fmt.Sprintf("wr %d %d %s", prev, w.chain[ft+n].id, ints(fids)), ret+" | "+w.dump())
 }
 
